@@ -3,7 +3,7 @@
 From Coq Require Import String Permutation.
 From Coq Require Import ZifyBool ZifyNat ZifyN.
 From GVL Require Import NList.
-From GV_sdp Require Import Str StrP Fmt FmtP FmtRT FmtRT2 FmtRT3 Model DescP MediaP SessP TextP Proofs TotalP DetP.
+From GV_sdp Require Import Str StrP Fmt FmtP FmtRT FmtRT2 FmtRT3 Model DescP MediaP SessP TextP Proofs TotalP DetP AcceptP AcceptP2 AcceptP3.
 Open Scope N_scope.
 
 (* no external parser is needed by the first witness *)
@@ -65,14 +65,14 @@ Proof.
     + constructor; [|constructor; [|constructor]].
       * unfold wf_media, ex_m0. cbn [m_id m_mikey m_formats m_type].
         split; [repeat constructor|]. split; [exact I|]. split; [discriminate|]. split.
-        { cbn. repeat constructor; cbn; intuition discriminate. }
+        { apply NoDup_same_pt_eq. cbn. repeat constructor; cbn; intuition discriminate. }
         constructor; [|constructor; [|constructor]].
         { split; [|exact I]. cbn. split; [left; reflexivity|]. split; [|unfold lt31; lia].
           unfold blob_ok, bytes_ok. repeat split; try reflexivity; repeat constructor; lia. }
         { split; [|exact I]. cbn. unfold dynp, lt31. repeat split; try reflexivity; lia. }
       * unfold wf_media, ex_m1. cbn [m_id m_mikey m_formats m_type].
         split; [repeat constructor|]. split; [exact I|]. split; [discriminate|]. split.
-        { cbn. repeat constructor; cbn; intuition discriminate. }
+        { apply NoDup_same_pt_eq. cbn. repeat constructor; cbn; intuition discriminate. }
         constructor; [|constructor; [|constructor]].
         { split; [|exact I]. cbn. unfold dynp, pos31, lt31. repeat split; try reflexivity; lia. }
         { split; [|exact I]. cbn. left. repeat split; reflexivity. }
@@ -97,3 +97,43 @@ Lemma ex_order :
   unmarshal_kind E_sps KVP9 (mkCtx $"video" 96 $"90000" $"vp9" $"VP9/90000" [($"profile-id", $"2"); ($"max-fr", $"30"); ($"max-fs", $"3600")])
   = Some (FVP9 (mkVP9 96 (Some 30) (Some 3600) (Some 2))).
 Proof. vm_compute. reflexivity. Qed.
+
+(* ---------- the normalisation in the fixpoint theorem is necessary ---------- *)
+(* an external AudioSpecificConfig parser that knows one configuration (12 10 = AAC-LC 44100 Hz stereo) *)
+Definition aac_cfg : asc := mkAsc (Some [18; 16]) 44100 0 0 2.
+Definition E_aac : ext :=
+  mkExt (fun _ => false) (fun _ => false) (fun _ => false)
+        (fun b => if str_eqb b [18; 16] then Some aac_cfg else None) (fun _ => None) (fun _ => false) (fun _ => None).
+
+Lemma E_aac_ok : ext_ok E_aac.
+Proof.
+  unfold ext_ok, E_aac. cbn. split; [|split].
+  - intros b c. destruct (str_eqb b [18; 16]); [|discriminate]. intros [= <-]. exists [18; 16].
+    split; [reflexivity|]. split; [repeat constructor; lia|reflexivity].
+  - discriminate.
+  - discriminate.
+Qed.
+Lemma E_none_ok : ext_ok E_none.
+Proof. unfold ext_ok, E_none. cbn. repeat split; discriminate. Qed.
+Lemma E_sps_ok : ext_ok E_sps.
+Proof. unfold ext_ok, E_sps. cbn. repeat split; discriminate. Qed.
+
+Lemma ext_ok_examples : ext_ok E_aac /\ ext_ok E_sps /\ ext_ok E_none.
+Proof. exact (conj E_aac_ok (conj E_sps_ok E_none_ok)). Qed.
+
+(* legacy AAC description without profile-level-id (upstream accepts it on purpose) *)
+Definition w3_text : str :=
+  lines_text [$"v=0"; $"s= "; $"t=0 0"; $"m=audio 0 RTP/AVP 96"; $"a=rtpmap:96 mpeg4-generic/44100/2";
+              $"a=fmtp:96 streamtype=5; mode=AAC-hbr; config=1210; sizelength=13"].
+
+Lemma legacy_aac_normalised : exists d1 t1,
+  parse_text E_aac ord_id w3_text [] = Ok d1 /\ marshal_text d1 = Ok t1 /\
+  parse_text E_aac ord_id t1 [] = Ok (normalize d1) /\ normalize d1 <> d1.
+Proof.
+  let r := eval vm_compute in (parse_text E_aac ord_id w3_text []) in
+  match r with
+  | Ok ?d1 => exists d1; let r2 := eval vm_compute in (marshal_text d1) in match r2 with Ok ?t1 => exists t1 end
+  end.
+  repeat split; try (vm_compute; reflexivity).
+  intros H. apply (f_equal esession) in H. vm_compute in H. discriminate.
+Qed.
